@@ -234,7 +234,16 @@ func c14Scenarios() []c14Scenario {
 		mk("S7-rest-vs-allocation", setup, o("REST"), o("SCHEDULE"), o("RELEASE", "a1")),
 		mk("S8-user-tracker-creation", []world.Op{op("NODE_ADD", "n1"), op("NODE_ADD", "n2"), op("APP_ADD", "app2"), op("ASK", "b1")}, o("SCHEDULE"), o("ASK_BOUND", "b2"), o("REST")),
 		mk("S9-health-reload", setup, o("HEALTH"), []world.Op{{K: "CONFIG", N: 1}}, o("SCHEDULE")),
+		mkReserve("S10-reserve-vs-ask-removal"),
 	}
+}
+
+// the scheduling cycle decides to reserve a node for an ask while the RM withdraws that ask
+func mkReserve(name string) c14Scenario {
+	s := scnReserveBind("c14-" + name)
+	s.Prefix = s.Prefix[:len(s.Prefix)-3] // up to ASK(a2) SCHEDULE: both nodes hold one allocation, b1 not asked yet
+	s.Prefix = append(s.Prefix, op("ASK", "b1"))
+	return c14Scenario{Name: name, Scn: s, Threads: [][]world.Op{{op("SCHEDULE")}, {op("RELEASE", "b1")}, {op("REST")}}}
 }
 
 type c14Run struct {
